@@ -106,12 +106,12 @@ def run(tier, seed):
     verd = {}
     for view in ("server", "client"):
         bks = {"none", "cl", "chunked"} | ({"close"} if view == "client" else set())
-        c = {"View": view, "Shapes": {"oneline", "many"}, "HNs": {0, 40} if q else {0, 1, 3, 40, 300},
+        c = {"View": view, "Shapes": {"oneline", "many", "fold"}, "HNs": {0, 40} if q else {0, 1, 3, 40, 300},
              "BKs": bks, "BNs": {0, 5, 20} if q else {0, 1, 5, 9, 20, 100}, "RHs": RH if not q else {"zero", "min-1", "min", "full", "full+1", "inf"},
              "RBs": RB if not q else {"zero", "min-1", "min", "full", "inf"}}
         scen = gen(chk, "C25_%s" % view, c, workers=8)
         # a message far larger than its limit: buffering must stay bounded (long single line, many lines, big bodies)
-        big = {"View": view, "Shapes": {"oneline", "many"}, "HNs": {20000} if q else {20000, 100000}, "BKs": {"none"}, "BNs": {0},
+        big = {"View": view, "Shapes": {"oneline", "many", "fold"}, "HNs": {20000} if q else {20000, 100000}, "BKs": {"none"}, "BNs": {0},
                "RHs": {"small", "inf"}, "RBs": {"zero"}}
         scen += gen(chk, "C25_%s_bighdr" % view, big)
         bigb = {"View": view, "Shapes": {"oneline"}, "HNs": {0}, "BKs": bks - {"none"}, "BNs": {60000} if q else {60000, 200000},
